@@ -280,65 +280,104 @@ theorem pubFromBytes_uncompressed (c : CurveT) (hc : c = .secp256k1 ∨ c = .nis
   · simp only [pubFromBytes, wDecodePub, hd]
     exact (sec1_compress_parity _ x y).1
 
-/-- hybrid encodings `06/07 ‖ x ‖ y` (libsecp256k1 only): accepted iff the prefix parity matches `y` -/
+/-- the plain SEC1 decoder refuses every prefix other than 02/03/04 -/
+theorem decode_hybrid_prefix_none (w : WCurve) (pfx : UInt8) (hp : pfx = 6 ∨ pfx = 7) (rest : Bytes) :
+    w.decode (pfx :: rest) = none := by
+  unfold WCurve.decode
+  have h1 : ¬ ((pfx = 2 ∨ pfx = 3) ∧ rest.length = w.coordLen) := by
+    intro hh; rcases hp with rfl | rfl <;> rcases hh.1 with h' | h' <;> exact absurd h' (by decide)
+  have h2 : ¬ (pfx = 4 ∧ rest.length = 2 * w.coordLen) := by
+    intro hh; rcases hp with rfl | rfl <;> exact absurd hh.1 (by decide)
+  show (if (pfx = 2 ∨ pfx = 3) ∧ rest.length = w.coordLen then _ else
+    if pfx = 4 ∧ rest.length = 2 * w.coordLen then _ else none) = none
+  rw [if_neg h1, if_neg h2]
+
+/-- hybrid encodings `06/07 ‖ x ‖ y` (libsecp256k1 and python-ecdsa alike): accepted iff the prefix
+parity matches `y` -/
+theorem hybrid_ecdsa (c : CurveT) (hc : c = .secp256k1 ∨ c = .nist256p1) (x y : Nat) (pfx : UInt8)
+    (hp : pfx = 6 ∨ pfx = 7) (h : c.wcurve.onCurve (.aff x y) = true) :
+    wDecodePub c (pfx :: Bytes.ofNatBE 32 x ++ Bytes.ofNatBE 32 y) =
+      if (y % 2 = 1) = (pfx = 7) then some (.aff x y) else none := by
+  have hd := decode_uncompressed c.wcurve x y h
+  rw [wcurve_coordLen] at hd
+  have hnone := decode_hybrid_prefix_none c.wcurve pfx hp (Bytes.ofNatBE 32 x ++ Bytes.ofNatBE 32 y)
+  have hlen : (pfx :: Bytes.ofNatBE 32 x ++ Bytes.ofNatBE 32 y).length = 65 := by simp
+  have hcc : (decide (c = .secp256k1) || decide (c = .nist256p1)) = true := by
+    rcases hc with rfl | rfl <;> rfl
+  rw [List.cons_append] at hd hlen ⊢
+  unfold wDecodePub
+  rw [hnone]
+  have hp' : (decide (pfx = 6) || decide (pfx = 7)) = true := by simpa using hp
+  simp only [hlen, hcc, decide_true, Bool.and_self, if_true, hp', hd]
+
 theorem hybrid_secp256k1 (x y : Nat) (pfx : UInt8) (hp : pfx = 6 ∨ pfx = 7)
     (h : Prim.secp256k1.onCurve (.aff x y) = true) :
     wDecodePub .secp256k1 (pfx :: Bytes.ofNatBE 32 x ++ Bytes.ofNatBE 32 y) =
-      if (y % 2 = 1) = (pfx = 7) then some (.aff x y) else none := by
-  have hd := decode_uncompressed Prim.secp256k1 x y h
-  rw [coordLen_secp256k1] at hd
-  have hnone : Prim.secp256k1.decode (pfx :: Bytes.ofNatBE 32 x ++ Bytes.ofNatBE 32 y) = none := by
-    unfold WCurve.decode
-    simp only [List.cons_append]
-    have h1 : ¬ ((pfx = 2 ∨ pfx = 3) ∧
-        (Bytes.ofNatBE 32 x ++ Bytes.ofNatBE 32 y).length = Prim.secp256k1.coordLen) := by
-      intro hh; rcases hp with rfl | rfl <;> rcases hh.1 with h' | h' <;> exact absurd h' (by decide)
-    have h2 : ¬ (pfx = 4 ∧
-        (Bytes.ofNatBE 32 x ++ Bytes.ofNatBE 32 y).length = 2 * Prim.secp256k1.coordLen) := by
-      intro hh; rcases hp with rfl | rfl <;> exact absurd hh.1 (by decide)
-    rw [if_neg h1, if_neg h2]
-  have hlen : (pfx :: Bytes.ofNatBE 32 x ++ Bytes.ofNatBE 32 y).length = 65 := by simp
-  rw [List.cons_append] at hd hnone hlen ⊢
+      if (y % 2 = 1) = (pfx = 7) then some (.aff x y) else none :=
+  hybrid_ecdsa .secp256k1 (Or.inl rfl) x y pfx hp h
+
+/-- python-ecdsa (NIST P-256) accepts the hybrid encodings under the same parity rule -/
+theorem hybrid_nist256p1 (x y : Nat) (pfx : UInt8) (hp : pfx = 6 ∨ pfx = 7)
+    (h : Prim.nist256p1.onCurve (.aff x y) = true) :
+    wDecodePub .nist256p1 (pfx :: Bytes.ofNatBE 32 x ++ Bytes.ofNatBE 32 y) =
+      if (y % 2 = 1) = (pfx = 7) then some (.aff x y) else none :=
+  hybrid_ecdsa .nist256p1 (Or.inr rfl) x y pfx hp h
+
+/-- the SEC1 decoder of a 32-byte-coordinate curve only accepts 33 or 65 bytes -/
+theorem decode_length (w : WCurve) (b : Bytes) (P : WPoint) (hw : w.coordLen = 32)
+    (hd : w.decode b = some P) : b.length = 33 ∨ b.length = 65 := by
+  unfold WCurve.decode at hd
+  cases b with
+  | nil => cases hd
+  | cons t rest =>
+    simp only [hw] at hd
+    split at hd
+    · next h1 => left; simp [h1.2]
+    · split at hd
+      · next h2 => right; simp [h2.2]
+      · cases hd
+
+/-- python-ecdsa (NIST P-256) accepts the raw encoding `x ‖ y` (64 bytes, no prefix) of an on-curve
+point (`onCurve` includes `x, y < p`) -/
+theorem raw_nist256p1 (x y : Nat) (h : Prim.nist256p1.onCurve (.aff x y) = true) :
+    wDecodePub .nist256p1 (Bytes.ofNatBE 32 x ++ Bytes.ofNatBE 32 y) = some (.aff x y) := by
+  have hd := decode_uncompressed Prim.nist256p1 x y h
+  rw [coordLen_nist256p1, List.cons_append] at hd
+  have hlen : (Bytes.ofNatBE 32 x ++ Bytes.ofNatBE 32 y).length = 64 := by
+    simp [length_ofNatBE]
+  have hnone : Prim.nist256p1.decode (Bytes.ofNatBE 32 x ++ Bytes.ofNatBE 32 y) = none := by
+    cases hq : Prim.nist256p1.decode (Bytes.ofNatBE 32 x ++ Bytes.ofNatBE 32 y) with
+    | none => rfl
+    | some P =>
+      have := decode_length _ _ P coordLen_nist256p1 hq
+      omega
   unfold wDecodePub
   simp only [CurveT.wcurve]
   rw [hnone]
-  have hp' : (decide (pfx = 6) || decide (pfx = 7)) = true := by simpa using hp
-  simp only [hlen, decide_true, Bool.and_self, if_true, hp', hd]
+  simp [hlen, hd]
 
-/-- the NIST P-256 key class refuses hybrid encodings -/
-theorem hybrid_nist256p1_refused (pfx : UInt8) (hp : pfx = 6 ∨ pfx = 7) (rest : Bytes) :
-    pubFromBytes .nist256p1 (pfx :: rest) = none := by
-  have hnone : Prim.nist256p1.decode (pfx :: rest) = none := by
-    unfold WCurve.decode
-    have h1 : ¬ ((pfx = 2 ∨ pfx = 3) ∧ rest.length = Prim.nist256p1.coordLen) := by
-      intro hh; rcases hp with rfl | rfl <;> rcases hh.1 with h' | h' <;> exact absurd h' (by decide)
-    have h2 : ¬ (pfx = 4 ∧ rest.length = 2 * Prim.nist256p1.coordLen) := by
-      intro hh; rcases hp with rfl | rfl <;> exact absurd hh.1 (by decide)
-    show (if (pfx = 2 ∨ pfx = 3) ∧ rest.length = Prim.nist256p1.coordLen then _ else
-      if pfx = 4 ∧ rest.length = 2 * Prim.nist256p1.coordLen then _ else none) = none
-    rw [if_neg h1, if_neg h2]
+/-- … and its compressed form is `02/03 ‖ x` -/
+theorem pubFromBytes_raw_nist256p1 (x y : Nat) (h : Prim.nist256p1.onCurve (.aff x y) = true) :
+    pubFromBytes .nist256p1 (Bytes.ofNatBE 32 x ++ Bytes.ofNatBE 32 y) =
+      some (UInt8.ofNat (2 + y % 2) :: Bytes.ofNatBE 32 x) := by
+  simp only [pubFromBytes, raw_nist256p1 x y h]
+  exact (sec1_compress_parity .nist256p1 x y).1
+
+/-- libsecp256k1 refuses every 64-byte input (no raw `x ‖ y` form) -/
+theorem raw_secp256k1_refused (b : Bytes) (hb : b.length = 64) : pubFromBytes .secp256k1 b = none := by
+  have hnone : Prim.secp256k1.decode b = none := by
+    cases hq : Prim.secp256k1.decode b with
+    | none => rfl
+    | some P =>
+      have := decode_length _ _ P coordLen_secp256k1 hq
+      omega
   simp only [pubFromBytes, wDecodePub, CurveT.wcurve, hnone]
-  have : (decide (CurveT.nist256p1 = CurveT.secp256k1) && decide ((pfx :: rest).length = 65)) = false := by
-    simp
-  rw [this]
-  rfl
+  simp [hb]
 
-/-- ECDSA public keys of any other length than 33 / 65 bytes are refused -/
+/-- accepted ECDSA public key lengths: 33 / 65 bytes, and also 64 (raw `x ‖ y`) for NIST P-256 only -/
 theorem pubFromBytes_ecdsa_length (c : CurveT) (hc : c = .secp256k1 ∨ c = .nist256p1) (b k : Bytes)
-    (h : pubFromBytes c b = some k) : b.length = 33 ∨ b.length = 65 := by
-  have hdl : ∀ (w : WCurve) (b : Bytes) (P : WPoint), w.coordLen = 32 → w.decode b = some P →
-      b.length = 33 ∨ b.length = 65 := by
-    intro w b P hw hd
-    unfold WCurve.decode at hd
-    cases b with
-    | nil => cases hd
-    | cons t rest =>
-      simp only [hw] at hd
-      split at hd
-      · next h1 => left; simp [h1.2]
-      · split at hd
-        · next h2 => right; simp [h2.2]
-        · cases hd
+    (h : pubFromBytes c b = some k) :
+    b.length = 33 ∨ b.length = 65 ∨ (c = .nist256p1 ∧ b.length = 64) := by
   have : ∃ P, wDecodePub c b = some P := by
     rcases hc with rfl | rfl <;>
     · simp only [pubFromBytes] at h
@@ -348,11 +387,32 @@ theorem pubFromBytes_ecdsa_length (c : CurveT) (hc : c = .secp256k1 ∨ c = .nis
   obtain ⟨P, hP⟩ := this
   unfold wDecodePub at hP
   split at hP
-  · next p hd => exact hdl _ _ _ (wcurve_coordLen c) hd
+  · next p hd =>
+    rcases decode_length _ _ _ (wcurve_coordLen c) hd with h' | h'
+    · exact Or.inl h'
+    · exact Or.inr (Or.inl h')
   · split at hP
     · next hh =>
       simp only [Bool.and_eq_true, decide_eq_true_eq] at hh
-      exact Or.inr hh.2
-    · cases hP
+      exact Or.inr (Or.inl hh.2)
+    · split at hP
+      · next hh =>
+        simp only [Bool.and_eq_true, decide_eq_true_eq] at hh
+        exact Or.inr (Or.inr hh)
+      · cases hP
+
+theorem pubFromBytes_secp256k1_length (b k : Bytes) (h : pubFromBytes .secp256k1 b = some k) :
+    b.length = 33 ∨ b.length = 65 := by
+  rcases pubFromBytes_ecdsa_length _ (Or.inl rfl) b k h with h' | h' | ⟨h', _⟩
+  · exact Or.inl h'
+  · exact Or.inr h'
+  · cases h'
+
+theorem pubFromBytes_nist256p1_length (b k : Bytes) (h : pubFromBytes .nist256p1 b = some k) :
+    b.length = 33 ∨ b.length = 64 ∨ b.length = 65 := by
+  rcases pubFromBytes_ecdsa_length _ (Or.inr rfl) b k h with h' | h' | ⟨_, h'⟩
+  · exact Or.inl h'
+  · exact Or.inr (Or.inr h')
+  · exact Or.inr (Or.inl h')
 
 end BipVerif.Model.EccLemmas
